@@ -25,6 +25,7 @@ User == /\ Is("user")
                 /\ dict' = ClearUser(dict)
            ELSE LET valid == RowsValid(dict, E.rows) IN
                 /\ A("C08", "user-lexicon-accepted-iff-valid", E.ok = valid)
+                /\ A("C10", "invalid-user-lexicon-rejected", ~valid => ~E.ok)
                 /\ dict' = IF E.ok THEN SetUser(dict, E.rows) ELSE dict
         /\ lastop' = "user" /\ memo' = {}
         /\ UNCHANGED <<opts, ws, cnt>>
@@ -32,6 +33,7 @@ User == /\ Is("user")
 Map == /\ Is("map")
        /\ LET valid == MapValid(dict, E.ll, E.rl) IN
           /\ A("C06", "mapping-accepted-iff-valid", E.ok = valid)
+          /\ A("C10", "malformed-mapping-rejected", ~valid => ~E.ok)
           /\ dict' = IF E.ok /\ valid THEN TLCEval(MapDict(dict, E.ll, E.rl)) ELSE dict
        /\ lastop' = "map" /\ memo' = {}
        /\ UNCHANGED <<opts, ws, cnt>>
